@@ -448,6 +448,9 @@ func WellFormed(p *Packet) bool {
 		if p.QoS > 0 && p.ID == 0 {
 			return false
 		}
+		if p.QoS == 0 && p.Dup {
+			return false // [MQTT-3.3.1-2]
+		}
 	case PUBACK, PUBREC, PUBREL, PUBCOMP, UNSUBACK:
 		return p.ID != 0
 	case SUBSCRIBE:
